@@ -98,10 +98,48 @@ def modelable(G):
     return True
 
 
+EXECUTED = []      # preludes that have run in this process, in order of first execution
+PRELUDES = ['mass-plain', 'rebuild-plain', 'mass-fragment', 'sampler-ctor', 'resolve-other', 'rebuild-custom-attrs']
+
+
+def run_prelude(name):
+    """a HISTORY: something else happens in the same process before the judged call (shared state such as
+    mutable default arguments or module globals must not leak into it).  Nothing is restored afterwards."""
+    import pysmiles
+    import cgsmiles.pysmiles_utils as PU
+    from cgsmiles.resolve import MoleculeResolver
+    from cgsmiles.sample import MoleculeSampler
+    try:
+        if name == 'mass-plain':            # the use compute_mass' docstring describes: a plain pysmiles graph
+            PU.compute_mass(pysmiles.read_smiles('CCO'))
+        elif name == 'rebuild-plain':
+            PU.rebuild_h_atoms(pysmiles.read_smiles('c1ccccc1N', explicit_hydrogen=False))
+        elif name == 'mass-fragment':
+            g = pysmiles.read_smiles('CC(=O)O')
+            nx.set_node_attributes(g, 'X', 'fragname')
+            PU.compute_mass(g)
+        elif name == 'sampler-ctor':
+            MoleculeSampler.from_fragment_string('{#A=[$]CC[$],#B=[$]O}', polymer_reactivities={'$': 1.0}, seed=3)
+        elif name == 'resolve-other':
+            MoleculeResolver.from_string('{[#Q]|2}.{#Q=[$]CO[$]}').resolve_all()
+        elif name == 'rebuild-custom-attrs':
+            PU.rebuild_h_atoms(pysmiles.read_smiles('CN'), copy_attrs=['fragid'])
+    except Exception:          # noqa: BLE001 - the prelude's own outcome is not judged
+        pass
+
+
 def drive(case):
     """run the implementation; returns (recorder.calls, final graph or None, exception name or None)"""
     from cgsmiles.resolve import MoleculeResolver
     from cgsmiles.sample import MoleculeSampler
+    # what ran earlier in this process is part of the input: it is recorded in the case so that a replay
+    # (fresh process) re-creates the same history before the judged call
+    if 'process_history' not in case:
+        case['process_history'] = list(EXECUTED)
+    for name in [p for p in case['process_history'] if p not in EXECUTED] + list(case.get('prelude', [])):
+        run_prelude(name)
+        if name not in EXECUTED:
+            EXECUTED.append(name)
     rec = Recorder().install()
     final, exc = None, None
     try:
@@ -509,6 +547,13 @@ class C09(common.Prop):
         out.append({'kind': 'sample', 'cls': 'corpus', 's': '{#A=[$]CC[$],#B=[$]C(C)C[$]}', 'react': {'$': 1.0},
                     'seed': 1, 'w': 60})
         out += [{'kind': 'resolve', 'cls': 'corpus', 's': s, 'legacy': True} for s in ZERO_WEIGHT[:5]]
+        # histories: a disturbing call first, then the judged call in the same process
+        out.append({'kind': 'resolve', 'cls': 'corpus+history', 's': '{[#A][#B]}.{#A=[$]CC[$],#B=[$]OC}', 'legacy': True,
+                    'prelude': ['mass-plain']})
+        out.append({'kind': 'resolve', 'cls': 'corpus+history', 's': '{[#A]|3}.{#A=[$]CC[$]}', 'legacy': True,
+                    'prelude': ['rebuild-plain', 'resolve-other']})
+        out.append({'kind': 'sample', 'cls': 'corpus+history', 's': '{#A=[$]CC[$],#B=[$]C(C)C[$]}', 'react': {'$': 1.0},
+                    'seed': 2, 'w': 60, 'prelude': ['mass-fragment', 'sampler-ctor']})
         for k, spec in enumerate(SAMPLER_TERMINAL[:3]):
             for seed in (0, 1, 2):
                 c = dict(spec)
@@ -522,7 +567,11 @@ class C09(common.Prop):
             if ctx.rng.random() < 0.25:
                 out.append({'kind': 'helpers', 'cls': 'helpers', 'seed': ctx.rng.randint(0, 10 ** 9)})
             else:
-                out.append(gen_case(ctx.rng))
+                c = gen_case(ctx.rng)
+                if ctx.rng.random() < 0.3:
+                    c['prelude'] = [ctx.rng.choice(PRELUDES) for _ in range(ctx.rng.randint(1, 2))]
+                    c['cls'] = c['cls'] + '+history'
+                out.append(c)
         return out
 
     def run_impl(self, case):
